@@ -388,7 +388,7 @@ struct CertSpec {
 	int tbs_sig_kind = 0;            // 0: follows the signer key; else force KK_RSA / KK_EC in the algorithm identifiers
 	Bytes sig_raw;                   // non-empty: literal signature bytes
 	int corrupt_sig = 0;             // 0 genuine; 1 one bit flipped; RSA signers also: 2 / 3 the *cleartext* padded block one byte longer / shorter
-	                                 // than the modulus in place of the signature, 4 last byte dropped, 5 a zero byte prepended
+	                                 // than the modulus in place of the signature, 4 last byte dropped, 5 a zero byte prepended, 6 a block whose 00 separator is another value, signed with the key
 };
 
 struct BuiltCert {
@@ -461,6 +461,26 @@ inline BuiltCert build(const CertSpec &s, const KeyPool &pool)
 		if (sig.empty()) sig = Bytes(8, 0x42);   // key too small for the digest: placeholder, cannot verify
 	}
 	if (s.corrupt_sig >= 2 && signer.kind == KK_RSA && sig.size() > 60 && s.sig_raw.empty()) {
+		if (s.corrupt_sig == 6) {
+			// a block with a wrong separator after the FF run, properly raised to the private exponent (made with the key)
+			BN_CTX *c = BN_CTX_new();
+			BIGNUM *n = BN_bin2bn(signer.n.data(), (int)signer.n.size(), nullptr), *e = BN_bin2bn(signer.e.data(), (int)signer.e.size(), nullptr), *x = BN_bin2bn(sig.data(), (int)sig.size(), nullptr), *y = BN_new();
+			BN_mod_exp(y, x, e, n, c);
+			Bytes em(sig.size(), 0);
+			BN_bn2binpad(y, em.data(), (int)em.size());
+			BN_free(n); BN_free(e); BN_free(x); BN_free(y); BN_CTX_free(c);
+			size_t i = 2;
+			while (i < em.size() && em[i] == 0xFF) i++;
+			bool done = false;
+			if (i < em.size() && em[0] == 0 && em[1] == 1 && em[i] == 0) {
+				em[i] = (uint8_t)(0x2C + (em.back() & 0x7F));
+				EVP_PKEY_CTX *pc = EVP_PKEY_CTX_new(signer.pkey, nullptr);
+				size_t sl = sig.size();
+				if (EVP_PKEY_sign_init(pc) > 0 && EVP_PKEY_CTX_set_rsa_padding(pc, RSA_NO_PADDING) > 0 && EVP_PKEY_sign(pc, sig.data(), &sl, em.data(), em.size()) > 0 && sl == sig.size()) done = true;
+				EVP_PKEY_CTX_free(pc);
+			}
+			if (!done) sig[sig.size() / 2] ^= 0x20;
+		} else
 		if (s.corrupt_sig == 2 || s.corrupt_sig == 3) {
 			// 00 01 FF..FF 00 DigestInfo, recovered with the public key, then stretched / shrunk by one FF byte
 			BN_CTX *c = BN_CTX_new();
